@@ -92,15 +92,14 @@ func runC17(p *Prog, r *Report, tier string) {
 			strictOK := false
 			var lenient *ssa.BasicBlock
 			if iff != nil {
-				if b, ok := iff.Cond.(*ssa.BinOp); ok && isFieldLoad(b.X, "pkg/collector.CollectingProcess.decodingMode") {
-					if s, ok := constString(b.Y); ok && s == "Strict" {
-						strictSucc := 0
-						if b.Op == token.NEQ {
-							strictSucc = 1
-						}
-						if (b.Op == token.EQL || b.Op == token.NEQ) && onlyErrorReturnsFrom(miss.Succs[strictSucc]) {
+				for _, cf := range cmpForms(iff.Cond) {
+					if cf.Op != token.EQL || !isFieldLoad(cf.X, "pkg/collector.CollectingProcess.decodingMode") {
+						continue
+					}
+					if s, ok := constString(cf.Y); ok && s == "Strict" {
+						if onlyErrorReturnsFrom(miss.Succs[cf.Succ]) {
 							strictOK = true
-							lenient = miss.Succs[1-strictSucc]
+							lenient = miss.Succs[1-cf.Succ]
 						}
 					}
 				}
@@ -230,64 +229,148 @@ func runC17(p *Prog, r *Report, tier string) {
 		r.Check(why == "", "R-GATE.consume", fmt.Sprintf("%s: length consumed by Next #%d", fnKey(dds), i+1), p.instrPos(nx),
 			"n = getFieldLength() if ie.Len == VariableLength else int(ie.Len)", why+" (an unknown variable-length field would swallow the rest of the set / mis-align the known fields)", true)
 	}
-	// the drop decision
-	var dropIf *ssa.If
-	eachInstr(dds, func(in ssa.Instruction) {
-		i, ok := in.(*ssa.If)
-		if !ok {
-			return
+	// the drop decision, on the paths of one iteration of the field loop from the consumption of the field's bytes to
+	// the next field: the decoded element is appended unless decodingMode == LenientDropUnknown and ie.Name == "" both
+	// hold - whichever way the test is spelled (operand order, order of the conjuncts, continue / if-else / flag)
+	isModeDrop := func(cf cmpForm) bool {
+		if cf.Op != token.EQL || !isFieldLoad(cf.X, "pkg/collector.CollectingProcess.decodingMode") {
+			return false
 		}
-		if b, ok := i.Cond.(*ssa.BinOp); ok && isFieldLoad(b.X, "pkg/collector.CollectingProcess.decodingMode") {
-			if s, ok := constString(b.Y); ok && s == "LenientDropUnknown" {
-				dropIf = i
+		sv, ok := constString(cf.Y)
+		return ok && sv == "LenientDropUnknown"
+	}
+	isNameEmpty := func(cf cmpForm) bool {
+		if cf.Op != token.EQL {
+			return false
+		}
+		if tn, fn, _, ok := loadedField(cf.X); !ok || tn != "pkg/entities.InfoElement" || fn != "Name" {
+			return false
+		}
+		sv, ok := constString(cf.Y)
+		return ok && sv == ""
+	}
+	var dropIfs []*ssa.If
+	eachInstr(dds, func(in ssa.Instruction) {
+		if i, ok := in.(*ssa.If); ok {
+			for _, cf := range cmpForms(i.Cond) {
+				if isModeDrop(cf) {
+					dropIfs = append(dropIfs, i)
+					break
+				}
 			}
 		}
 	})
-	if dropIf == nil {
+	if len(dropIfs) == 0 || len(nexts) == 0 {
 		r.Undecided("R-GATE.drop", fnKey(dds)+": drop decision", p.pos(dds.Pos()), "no test of decodingMode == LenientDropUnknown found")
 	} else {
-		okOrder := len(nexts) == 1 && dominates(nexts[0], dropIf)
+		dropIf := dropIfs[0]
+		okOrder := len(nexts) == 1
+		for _, di := range dropIfs {
+			if !dominates(nexts[0], di) {
+				okOrder = false
+			}
+		}
 		r.Check(okOrder, "R-GATE.drop-after-consume", fnKey(dds)+": bytes consumed before the drop decision", p.instrPos(dropIf), "the single Next dominates the drop test",
 			"the drop decision is taken before (or instead of) the regular consumption of the field's bytes: in drop mode the unknown field's bytes are skipped by a different length computation", true)
-		// second conjunct: ie.Name == ""
-		b := dropIf.Cond.(*ssa.BinOp)
-		dropSucc := 0
-		if b.Op == token.NEQ {
-			dropSucc = 1
-		}
-		nameBlk := dropIf.Block().Succs[dropSucc]
-		okName := false
-		var dropEdge, keepEdge *ssa.BasicBlock
-		if ni := ifOf(nameBlk); ni != nil {
-			if nb, ok := ni.Cond.(*ssa.BinOp); ok {
-				if tn, fn, _, ok := loadedField(nb.X); ok && tn == "pkg/entities.InfoElement" && fn == "Name" {
-					if s, ok := constString(nb.Y); ok && s == "" && (nb.Op == token.EQL || nb.Op == token.NEQ) {
-						okName = true
-						if nb.Op == token.EQL {
-							dropEdge, keepEdge = nameBlk.Succs[0], nameBlk.Succs[1]
-						} else {
-							dropEdge, keepEdge = nameBlk.Succs[1], nameBlk.Succs[0]
+		lh := loopHeadOf(nexts[0].Block())
+		whyCrit, whyEdge := "", ""
+		nDrop, nKeep := 0, 0
+		if lh == nil {
+			whyCrit = "the field's bytes are not consumed inside a loop over the template's fields"
+		} else {
+			w := &absWalker{MaxPaths: 4096, LoopHead: lh}
+			w.OnInstr = func(st *absState, in ssa.Instruction) {
+				c, ok := in.(*ssa.Call)
+				if !ok {
+					return
+				}
+				if bi, ok := c.Call.Value.(*ssa.Builtin); ok && bi.Name() == "append" {
+					for _, a := range c.Call.Args {
+						if ex, ok := st.resolve(a).(*ssa.Extract); ok && ex.Index == 0 {
+							if cc, ok := ex.Tuple.(*ssa.Call); ok && calleeName(&cc.Call) == "pkg/entities.DecodeAndCreateInfoElementWithValue" {
+								st.Events = append(st.Events, absEvent{Kind: "append", In: in})
+							}
+						}
+						// append(elements, element) is compiled with a one-element slice literal
+						if sl, ok := st.resolve(a).(*ssa.Slice); ok {
+							if al, ok := sl.X.(*ssa.Alloc); ok {
+								for _, ref := range refs(al) {
+									if ia, ok := ref.(*ssa.IndexAddr); ok {
+										for _, r2 := range refs(ia) {
+											if sto, ok := r2.(*ssa.Store); ok {
+												if ex, ok := st.resolve(sto.Val).(*ssa.Extract); ok && ex.Index == 0 {
+													if cc, ok := ex.Tuple.(*ssa.Call); ok && calleeName(&cc.Call) == "pkg/entities.DecodeAndCreateInfoElementWithValue" {
+														st.Events = append(st.Events, absEvent{Kind: "append", In: in})
+													}
+												}
+											}
+										}
+									}
+								}
+							}
 						}
 					}
 				}
 			}
-		}
-		r.Check(okName, "R-GATE.drop", fnKey(dds)+": drop criterion", p.instrPos(dropIf), "decodingMode == LenientDropUnknown && ie.Name == \"\"", "fields are dropped by a criterion other than 'drop mode and nameless (unknown) element'", true)
-		if okName {
-			// the drop edge goes back to the field loop without append; the keep edge appends
-			hasAppend := func(b *ssa.BasicBlock) bool {
-				f := false
-				for _, in := range b.Instrs {
-					if c, ok := in.(*ssa.Call); ok {
-						if bi, ok := c.Call.Value.(*ssa.Builtin); ok && bi.Name() == "append" {
-							f = true
+			w.OnEnd = func(st *absState, last ssa.Instruction) {
+				if _, isRet := last.(*ssa.Return); isRet {
+					return // error exits (and the function's end) are not "next field"
+				}
+				if _, isPanic := last.(*ssa.Panic); isPanic {
+					return
+				}
+				mode, name := 0, 0
+				for _, cd := range st.Conds {
+					for _, cf := range cmpForms(cd.If.Cond) {
+						v := -1
+						if cf.Succ == cd.Succ {
+							v = 1
+						}
+						if isModeDrop(cf) {
+							mode = v
+						}
+						if isNameEmpty(cf) {
+							name = v
 						}
 					}
 				}
-				return f
+				appended := false
+				for _, e := range st.Events {
+					if e.Kind == "append" {
+						appended = true
+					}
+				}
+				switch {
+				case mode == 1 && name == 1:
+					nDrop++
+					if appended {
+						whyEdge = "a nameless element is appended although the mode is LenientDropUnknown"
+					}
+				case mode == -1 || name == -1:
+					nKeep++
+					if !appended {
+						whyEdge = "an element is not appended although it is known or the mode is not LenientDropUnknown (" + p.instrPos(last) + ")"
+					}
+				default:
+					if !appended {
+						whyCrit = "an element is skipped on a path that does not test both decodingMode == LenientDropUnknown and ie.Name == \"\" (" + p.instrPos(last) + ")"
+					} else {
+						nKeep++
+					}
+				}
 			}
-			r.Check(!hasAppend(dropEdge) && hasAppend(keepEdge), "R-GATE.drop", fnKey(dds)+": drop edge skips exactly the append", p.instrPos(dropIf), "drop edge: no append; other edge: append of the decoded element",
-				"the drop/keep edges are swapped or both append", true)
+			w.walk(newAbsState(), nexts[0].Block(), instrIndex(nexts[0])+1)
+			if w.Overflow {
+				whyCrit = "too many paths through one iteration of the field loop"
+			}
+			if whyCrit == "" && nDrop == 0 {
+				whyCrit = "no path of the field loop stands for 'drop mode and nameless element'"
+			}
+		}
+		r.Check(whyCrit == "", "R-GATE.drop", fnKey(dds)+": drop criterion", p.instrPos(dropIf), "decodingMode == LenientDropUnknown && ie.Name == \"\"", "fields are dropped by a criterion other than 'drop mode and nameless (unknown) element': "+whyCrit, true)
+		if whyCrit == "" {
+			r.Check(whyEdge == "" && nKeep > 0, "R-GATE.drop", fnKey(dds)+": drop edge skips exactly the append", p.instrPos(dropIf), "drop edge: no append; other edge: append of the decoded element",
+				"the drop/keep edges are swapped or both append: "+whyEdge, true)
 		}
 	}
 	// (3) registry names
